@@ -113,7 +113,7 @@ impl Scenario for C12 {
         enum_count(Self::maxlen(tier))
             + match tier {
                 Tier::Quick => 250_000,
-                Tier::Thorough => 5_000_000,
+                Tier::Thorough => 20_000_000,
             }
     }
     fn plan(&self, seed: u64, idx: u64, tier: Tier) -> Plan {
